@@ -411,6 +411,9 @@ func writeEvidence(p *propInfo, tier string, seed int, m *merged, wall time.Dura
 		samples = []json.RawMessage{}
 	}
 	cov["samples"] = samples
+	if m.setSize("states") > 0 {
+		cov["states"] = m.setSize("states")
+	}
 	if p.level == "model_checking" {
 		cov["states"] = m.setSize("states")
 		cov["transitions"] = m.counters["transitions"]
